@@ -66,6 +66,9 @@ func genProv(r *rand.Rand) string {
 	odd := r.Intn(8) == 0
 	malformed := r.Intn(6) == 0
 	nsc := 1 + r.Intn(4)
+	if r.Intn(10) == 0 {
+		nsc = 5 + r.Intn(2) // GCDM over five and six weights
+	}
 	if r.Intn(30) == 0 {
 		nsc = 0
 	}
@@ -97,7 +100,17 @@ func genProv(r *rand.Rand) string {
 	if odd && r.Intn(2) == 0 {
 		rq = append(rq, esc(names[0])) // duplicate request name
 	}
-	return fmt.Sprintf("kind=prov n=%d rq=%s sc=%s", 30+r.Intn(60), strings.Join(rq, "|"), strings.Join(scs, ";"))
+	n := 30 + r.Intn(60)
+	pl := ""
+	if r.Intn(3) == 0 {
+		// the provider options passes / limit (0 = unlimited): the feed ends after whole passes or after `limit` ammo
+		passes, limit := r.Intn(4), 0
+		if r.Intn(2) == 0 {
+			limit = 1 + r.Intn(n+5)
+		}
+		pl = fmt.Sprintf(" pl=%d,%d", passes, limit)
+	}
+	return fmt.Sprintf("kind=prov n=%d%s rq=%s sc=%s", n, pl, strings.Join(rq, "|"), strings.Join(scs, ";"))
 }
 
 // ---------------------------------------------------------------- kind=gun
@@ -138,7 +151,7 @@ func genGun(r *rand.Rand, inst int) string {
 		prod[n] = v
 		method := pick(r, "G", "P")
 		var pre []string
-		mode := r.Intn(4) // 0: none, 1-2: source draws, 3: references
+		mode := r.Intn(5) // 0: none, 1-2: source draws, 3: references, 4: template functions
 		hasNext, hasM := false, false
 		switch mode {
 		case 1, 2:
@@ -151,21 +164,50 @@ func genGun(r *rand.Rand, inst int) string {
 				vn := fmt.Sprintf("v%d", j)
 				switch x := r.Intn(8); {
 				case x <= 3 && !hasNext: // one [next] draw per request: two draws in one mapping are handed out in Go map order
-					pre = append(pre, vn+"=n")
+					code := "n"
+					if r.Intn(4) == 0 {
+						code = fmt.Sprintf("N%d", r.Intn(5)) // another spelling of the same path
+					}
+					pre = append(pre, vn+"="+code)
 					v.pre = append(v.pre, vn)
 					hasNext = true
 				case x == 4:
-					pre = append(pre, fmt.Sprintf("%s=i%d", vn, r.Intn(rows+6)-3))
+					code := "i"
+					if r.Intn(4) == 0 {
+						code = "I"
+					}
+					k := r.Intn(rows+6) - 3
+					ks := fmt.Sprint(k)
+					if k >= 0 && r.Intn(4) == 0 {
+						ks = "+" + ks // strconv.Atoi accepts a sign
+					}
+					pre = append(pre, vn+"="+code+ks)
 					v.pre = append(v.pre, vn)
 				case x == 5:
-					pre = append(pre, vn+"=l")
+					code := "l"
+					if r.Intn(3) == 0 {
+						code = fmt.Sprintf("L%d", r.Intn(3))
+					}
+					pre = append(pre, vn+"="+code)
 					v.pre = append(v.pre, vn)
-				case x == 6 && inst == 1:
+				case x == 6:
+					// [rand] also with several instances: the iterator (and its rand.Rand) is shared by all of them
 					pre = append(pre, fmt.Sprintf("rv%d=r", j))
 				default:
 					pre = append(pre, fmt.Sprintf("%s=i%d", vn, rn()))
 					v.pre = append(v.pre, vn)
 				}
+			}
+		case 4:
+			for j, k := 0, 1+r.Intn(2); j < k; j++ {
+				// a value that is not determined by the arguments (random letters, randInt, uuid) gets a name no template refers to
+				code := genFn(r, names)
+				vn := fmt.Sprintf("g%d", j)
+				if fnDet(code) {
+					vn = fmt.Sprintf("f%d", j)
+				}
+				pre = append(pre, vn+"="+code)
+				v.pre = append(v.pre, vn)
 			}
 		case 3:
 			for j, k := 0, 1+r.Intn(2); j < k; j++ {
@@ -183,7 +225,7 @@ func genGun(r *rand.Rand, inst int) string {
 			case x <= 4:
 				return "p" + o + "." + pick(r, "tok", "tok", "n", "h", "zz")
 			case x <= 7:
-				return "e" + o + "." + pick(r, "v0", "v0", "v1", "w0", "nope")
+				return "e" + o + "." + pick(r, "v0", "v0", "v1", "w0", "nope", "f0")
 			case x == 8 && allowErr && r.Intn(4) == 0:
 				return fmt.Sprintf("s%d", rows+r.Intn(3))
 			default:
@@ -351,6 +393,8 @@ func genGun(r *rand.Rand, inst int) string {
 				o = append(o, pick(r, "s404", "s500", "s201", "s503"))
 			case x == 5:
 				o = append(o, "t")
+			case x == 6:
+				o = append(o, pick(r, "r", "n", "L")) // redirect (not followed), 204 without body, 5 KiB chunked body
 			default:
 				o = append(o, "k")
 			}
@@ -447,6 +491,90 @@ func genGunPost(r *rand.Rand) string {
 		shots, pick(r, "G", "P"), strings.Join(post, "|"), strings.Join(refs, "|"), strings.Join(o, ","))
 }
 
+// genFn: a template function as the value of a preprocessor mapping entry (code F…, see fnText in gun.go)
+func genFn(r *rand.Rand, names []string) string {
+	cnt := func() string {
+		switch x := r.Intn(12); {
+		case x <= 6:
+			return pick(r, "1", "2", "3", "0", "12", "+2", "007")
+		case x == 7:
+			return pick(r, "-1", "x", "", "1.5", "99999999999")
+		default:
+			// a value captured by an extractor of some request (numeric only when it was cut out of X-Tok)
+			return "q" + names[r.Intn(len(names))] + ".post." + pick(r, "h", "h", "tok", "n")
+		}
+	}
+	switch x := r.Intn(16); {
+	case x <= 6:
+		return "FS" + cnt() + "~" + pick(r, "z", "Q", "7", "zz")
+	case x == 7:
+		return "FW" + cnt() + "~" + pick(r, "z", "y")
+	case x == 8:
+		return pick(r, "FQ2~z", "FQ3~q", "FS2~zq", "FS1~z~y", "FS", "FS4")
+	case x == 9:
+		return "FS" + cnt()
+	case x == 10:
+		return pick(r, "FI", "FI5", "FI3~9", "FI9~3", "FIx", "FI1~y", "FI1~2~3")
+	case x == 11:
+		return "FU"
+	case x == 12:
+		return pick(r, "FX", "FP")
+	default:
+		return "FS" + cnt() + "~" + pick(r, "z", "k")
+	}
+}
+
+// genGunFn: focused cases for template functions in preprocessor mappings: request a cuts the ordinal out of X-Tok
+// (a numeric string), request b computes variables from it with template functions and renders them, c follows
+func genGunFn(r *rand.Rand) string {
+	names := []string{"a", "b", "c"}
+	apost := "hh=X-Tok/substr(3)"
+	if r.Intn(4) == 0 {
+		apost = pick(r, "hh=X-Tok", "hh=X-Kind/substr(5)", "jh=n", "hh=X-Tok/substr(3)/replace(0,)")
+	}
+	var pre, refs []string
+	for j, k := 0, 1+r.Intn(2); j < k; j++ {
+		code := genFn(r, names)
+		if r.Intn(2) == 0 {
+			code = "FS" + pick(r, "qa.post.h", "qa.post.h", "qa.post.zz", "qc.post.h") + "~" + pick(r, "z", "Q")
+		}
+		if fnDet(code) {
+			pre = append(pre, fmt.Sprintf("f%d=%s", j, code))
+			refs = append(refs, fmt.Sprintf("eb.f%d", j))
+		} else {
+			pre = append(pre, fmt.Sprintf("g%d=%s", j, code))
+		}
+	}
+	shots := 2 + r.Intn(3)
+	var o []string
+	for j := 0; j < shots*4; j++ {
+		o = append(o, pick(r, "k", "k", "k", "k", "k", "k", "s404", "r", "n"))
+	}
+	sc := pick(r, "a|b|c", "a|b(2)|c", "a|b|a|b", "b|a|b")
+	return fmt.Sprintf("kind=gun inst=1 shots=%d L=3 rq=a:G::::%s;b:%s:%s:%s::;c:G:::: sc=s1:1:0:%s or=%s",
+		shots, apost, pick(r, "G", "P"), strings.Join(pre, "|"), strings.Join(refs, "|"), sc, strings.Join(o, ","))
+}
+
+// genGunNext: focused cases for the [next] counters: two or three requests each drawing a row from source.users through
+// one of the spellings of the path (same spelling = same counter; spellings that trim to the same text share it too),
+// one scenario listing them, 1 or 4 instances, a target that answers normally
+func genGunNext(r *rand.Rand, inst int) string {
+	names := []string{"a", "b", "c"}[:2+r.Intn(2)]
+	var defs, shoots []string
+	for _, n := range names {
+		code := pick(r, "n", "n", "N0", "N1", "N2", "N3", "N4")
+		defs = append(defs, fmt.Sprintf("%s:G:v0=%s:::", n, code))
+		shoots = append(shoots, pick(r, n, n, n+"(2)"))
+	}
+	rows := 2 + r.Intn(6)
+	shots := 4 + r.Intn(6)
+	if inst > 1 {
+		rows = 2 + r.Intn(30)
+		shots = 8 + r.Intn(8)
+	}
+	return fmt.Sprintf("kind=gun inst=%d shots=%d L=%d rq=%s sc=s1:1:0:%s or=", inst, shots, rows, strings.Join(defs, ";"), strings.Join(shoots, "|"))
+}
+
 // ---------------------------------------------------------------- kind=first
 
 func genFirst(r *rand.Rand, mode string, thorough bool) string {
@@ -522,9 +650,9 @@ func genExhaustive() []string {
 }
 
 func gen(r *rand.Rand, tier string) []string {
-	nProv, nGun1, nGun4, nCtl, nPar, nPost := 800, 340, 170, 12, 4, 160
+	nProv, nGun1, nGun4, nCtl, nPar, nPost, nFn, nNext := 800, 340, 170, 12, 4, 160, 70, 50
 	if tier == "thorough" {
-		nProv, nGun1, nGun4, nCtl, nPar, nPost = 16000, 6000, 3000, 300, 40, 3000
+		nProv, nGun1, nGun4, nCtl, nPar, nPost, nFn, nNext = 16000, 6000, 3000, 300, 40, 3000, 1500, 1000
 	}
 	var out []string
 	for i := 0; i < nCtl; i++ {
@@ -544,6 +672,16 @@ func gen(r *rand.Rand, tier string) []string {
 	}
 	for i := 0; i < nPost; i++ {
 		out = append(out, genGunPost(r))
+	}
+	for i := 0; i < nFn; i++ {
+		out = append(out, genGunFn(r))
+	}
+	for i := 0; i < nNext; i++ {
+		inst := 1
+		if i%5 == 4 {
+			inst = 4
+		}
+		out = append(out, genGunNext(r, inst))
 	}
 	if tier == "thorough" {
 		out = append(out, genExhaustive()...)
